@@ -193,3 +193,194 @@ Definition meta_eqb (a b : list (string * jval)) : bool := jval_eqb (JObj a) (JO
 Definition schema_eqb (a b : schema) : bool :=
   list_eqb snode_eqb (s_nodes a) (s_nodes b) && list_eqb prod_eqb (s_prods a) (s_prods b)
   && meta_eqb (s_meta a) (s_meta b) && list_eqb N.eqb (s_buf a) (s_buf b).
+
+(* ---------- the JSON TEXT of a save ---------- *)
+(* What generator.App.Schema() returns: jbtf.Encoder.ToPgtf = encoding/json's MarshalIndent(v, "", "\t") of
+   { "buffers", "bufferViews" (omitted when empty), "data": schema.App } with Go's conventions: struct fields in
+   declaration order, map keys sorted, omitempty fields left out, empty containers as {} / [], HTML-safe string
+   escaping.  The text of a floating-point number ([show_num], strconv's shortest round-trip formatting), of the
+   buffer ([show_buf], base64) and the registered name of a node type ([tyname]) are DELEGATED: Section variables
+   here, with injectivity hypotheses where theorems need them.  The one thing not reproduced: encoding/json writes
+   U+2028 / U+2029 (bytes E2 80 A8 / A9) as   /  ; this printer passes every byte above 0x7F through. *)
+Inductive tj :=
+| TNull | TBool (b : bool) | TNum (text : string) | TStr (s : string)
+| TArr (l : list tj) | TObj (l : list (string * tj)).
+
+Local Open Scope string_scope.
+
+Definition nl : string := String (ascii_of_N 10) EmptyString.
+Definition tab : ascii := ascii_of_N 9.
+Fixpoint tabs (n : nat) : string := match n with O => EmptyString | S k => String tab (tabs k) end.
+
+Definition hexdigit (n : N) : ascii := ascii_of_N (if n <? 10 then 48 + n else 87 + n)%N.   (* lower case *)
+Definition u00 (n : N) : string :=
+  "\u00" ++ String (hexdigit (n / 16)%N) (String (hexdigit (n mod 16)%N) EmptyString).
+
+(* encoding/json, escapeHTML on (Go >= 1.22: \b and \f have short forms) *)
+Definition esc_char (c : ascii) : string :=
+  let n := byte_of c in
+  if (n =? 34)%N then "\""" else if (n =? 92)%N then "\\"
+  else if (n =? 10)%N then "\n" else if (n =? 13)%N then "\r" else if (n =? 9)%N then "\t"
+  else if (n =? 8)%N then "\b" else if (n =? 12)%N then "\f"
+  else if (n <? 32)%N then u00 n
+  else if ((n =? 60) || (n =? 62) || (n =? 38))%N then u00 n
+  else String c EmptyString.
+Fixpoint esc (s : string) : string :=
+  match s with EmptyString => EmptyString | String c r => esc_char c ++ esc r end.
+Definition quote (s : string) : string := String """"%char (esc s ++ String """"%char EmptyString).
+
+Fixpoint pp (i : nat) (v : tj) {struct v} : string :=
+  match v with
+  | TNull => "null"
+  | TBool true => "true"
+  | TBool false => "false"
+  | TNum t => t
+  | TStr s => quote s
+  | TArr [] => "[]"
+  | TArr (x :: r) =>
+      "[" ++ nl ++ tabs (S i) ++ pp (S i) x
+      ++ (fix go (r : list tj) : string :=
+            match r with [] => EmptyString | y :: r' => "," ++ nl ++ tabs (S i) ++ pp (S i) y ++ go r' end) r
+      ++ nl ++ tabs i ++ "]"
+  | TObj [] => "{}"
+  | TObj ((k, x) :: r) =>
+      "{" ++ nl ++ tabs (S i) ++ quote k ++ ": " ++ pp (S i) x
+      ++ (fix go (r : list (string * tj)) : string :=
+            match r with
+            | [] => EmptyString
+            | (k', y) :: r' => "," ++ nl ++ tabs (S i) ++ quote k' ++ ": " ++ pp (S i) y ++ go r'
+            end) r
+      ++ nl ++ tabs i ++ "}"
+  end.
+
+Definition zdec (z : Z) : string :=
+  match z with Z0 => "0" | Zpos p => dec (Npos p) | Zneg p => "-" ++ dec (Npos p) end.
+
+Record header := mkhdr { h_name : string; h_version : string; h_desc : string }.
+
+Section Render.
+  Local Open Scope list_scope.
+  Variable show_num : N -> string.          (* float64 bit pattern -> its JSON text *)
+  Variable show_buf : list N -> string.     (* base64 (StdEncoding) of buffer 0 *)
+  Variable tyname : nat -> string.          (* registered name of a node type *)
+  Variable sorted_data : nat -> bool.       (* the type's data object is written with sorted keys (File / Image:
+                                               jbtf re-marshals it as a map) instead of in struct order (Value[T]) *)
+
+  Fixpoint tj_of (v : jval) : tj :=
+    match v with
+    | JNull => TNull
+    | JBool b => TBool b
+    | JInt z => TNum (zdec z)
+    | JNum b => TNum (show_num b)
+    | JStr s => TStr s
+    | JBytes _ => TNull                      (* never part of a plain value *)
+    | JArr l => TArr (map tj_of l)
+    | JObj l => TObj ((fix go (l : list (string * jval)) : list (string * tj) :=
+                         match l with [] => [] | (k, x) :: r => (k, tj_of x) :: go r end) l)
+    end.
+
+  Definition tnat (n : N) : tj := TNum (dec n).
+  Definition tj_cli (o : option (string * string)) : tj :=
+    match o with Some (f, u) => TObj [("flagName", TStr f); ("usage", TStr u)] | None => TNull end.
+
+  (* a parameter's data object; [k] is the index the next buffer view will get.  Returns the object and the
+     views (offset, length) it refers to *)
+  Definition tj_field (plain view : string) (k : N) (f : sfield) : list (string * tj) * list (N * N) :=
+    match f with
+    | FAbsent => ([], [])
+    | FPlain v => ([(plain, tj_of v)], [])
+    | FView o l => ([(view, tnat k)], [(o, l)])
+    end.
+  Definition tj_data (sorted : bool) (k : N) (d : sdata) : tj * list (N * N) :=
+    let '(cur, vc) := tj_field "currentValue" "$CurrentValue" k (s_cur d) in
+    let '(def, vd) := tj_field "defaultValue" "$DefaultValue" (k + N.of_nat (length vc))%N (s_def d) in
+    let desc := match s_desc d with Some x => [("description", TStr x)] | None => [] end in
+    (if sorted
+     then TObj ((match s_cur d with FView _ _ => cur | _ => [] end) ++ (match s_def d with FView _ _ => def | _ => [] end)
+                ++ [("cli", tj_cli (s_cli d))]
+                ++ (match s_cur d with FView _ _ => [] | _ => cur end) ++ (match s_def d with FView _ _ => [] | _ => def end)
+                ++ desc ++ [("name", TStr (s_name d))])
+     else TObj ([("name", TStr (s_name d))] ++ desc ++ cur ++ def ++ [("cli", tj_cli (s_cli d))]),
+     vc ++ vd).
+
+  Definition tj_dep (d : sdep) : tj :=
+    TObj [("dependencyID", TStr (d_src d)); ("dependencyPort", TStr (d_port d)); ("name", TStr (d_name d))].
+
+  Definition tj_node (k : N) (sn : snode) : (string * tj) * list (N * N) :=
+    let deps := match s_deps sn with [] => [] | l => [("dependencies", TArr (map tj_dep l))] end in
+    match s_data sn with
+    | Some d => let '(o, vs) := tj_data (sorted_data (s_ty sn)) k d in
+                ((s_id sn, TObj ([("type", TStr (tyname (s_ty sn)))] ++ deps ++ [("data", o)])), vs)
+    | None => ((s_id sn, TObj ([("type", TStr (tyname (s_ty sn)))] ++ deps)), [])
+    end.
+
+  Fixpoint tj_nodes (k : N) (l : list snode) : list (string * tj) * list (N * N) :=
+    match l with
+    | [] => ([], [])
+    | sn :: r => let '(e, vs) := tj_node k sn in
+                 let '(es, ws) := tj_nodes (k + N.of_nat (length vs))%N r in
+                 (e :: es, vs ++ ws)
+    end.
+
+  Definition tj_view (v : N * N) : tj :=
+    TObj ([("buffer", tnat 0)] ++ (if (fst v =? 0)%N then [] else [("byteOffset", tnat (fst v))])
+          ++ [("byteLength", tnat (snd v))]).
+
+  Definition opt_str (k s : string) : list (string * tj) :=
+    match s with EmptyString => [] | _ => [(k, TStr s)] end.
+
+  Definition tj_schema (h : header) (sc : schema) : tj :=
+    let '(ns, views) := tj_nodes 0 (s_nodes sc) in
+    TObj ([("buffers", TArr [TObj [("byteLength", tnat (N.of_nat (length (s_buf sc))));
+                                   ("uri", TStr (cat "data:application/octet-stream;base64," (show_buf (s_buf sc))))]])]
+          ++ (match views with [] => [] | _ => [("bufferViews", TArr (map tj_view views))] end)
+          ++ [("data", TObj (opt_str "description" (h_desc h)
+                             ++ (match s_meta sc with [] => [] | m => [("metadata", tj_of (JObj m))] end)
+                             ++ opt_str "name" (h_name h)
+                             ++ [("nodes", TObj ns);
+                                 ("producers", TObj (map (fun e => let '(n, i, p) := e in
+                                                             (n, TObj [("nodeID", TStr i); ("port", TStr p)])) (s_prods sc)))]
+                             ++ opt_str "version" (h_version h)))]).
+
+  Definition render (h : header) (sc : schema) : string := pp 0 (tj_schema h sc).
+End Render.
+
+(* base64.StdEncoding *)
+Definition b64char (n : N) : ascii :=
+  ascii_of_N (if n <? 26 then 65 + n else if n <? 52 then 71 + n else if n <? 62 then n - 4 else if n =? 62 then 43 else 47)%N.
+Fixpoint base64 (l : list N) : string :=
+  match l with
+  | a :: b :: c :: r =>
+      String (b64char (a / 4)%N) (String (b64char ((a mod 4) * 16 + b / 16)%N)
+        (String (b64char ((b mod 16) * 4 + c / 64)%N) (String (b64char (c mod 64)%N) (base64 r))))
+  | [a; b] =>
+      String (b64char (a / 4)%N) (String (b64char ((a mod 4) * 16 + b / 16)%N)
+        (String (b64char ((b mod 16) * 4)%N) "="))
+  | [a] => String (b64char (a / 4)%N) (String (b64char ((a mod 4) * 16)%N) "==")
+  | [] => EmptyString
+  end.
+
+(* which schemas the text comparison of the binding covers: no delegated number text, no byte 0xE2 in a string *)
+Fixpoint str_plain (s : string) : bool :=
+  match s with EmptyString => true | String c r => negb (byte_of c =? 226)%N && str_plain r end.
+Fixpoint jval_plain (v : jval) : bool :=
+  match v with
+  | JNum _ | JBytes _ => false
+  | JStr s => str_plain s
+  | JArr l => forallb jval_plain l
+  | JObj l => (fix go (l : list (string * jval)) : bool :=
+                 match l with [] => true | (k, x) :: r => str_plain k && jval_plain x && go r end) l
+  | _ => true
+  end.
+Definition sfield_plain (f : sfield) : bool := match f with FPlain v => jval_plain v | _ => true end.
+Definition schema_plain (sc : schema) : bool :=
+  forallb (fun sn => str_plain (s_id sn)
+                     && forallb (fun d => str_plain (d_name d) && str_plain (d_src d)) (s_deps sn)
+                     && match s_data sn with
+                        | Some d => str_plain (s_name d) && match s_desc d with Some x => str_plain x | None => true end
+                                    && sfield_plain (s_cur d) && sfield_plain (s_def d)
+                                    && match s_cli d with Some (f, u) => str_plain f && str_plain u | None => true end
+                        | None => true
+                        end) (s_nodes sc)
+  && forallb (fun e => let '(n, i, _) := e in str_plain n && str_plain i) (s_prods sc)
+  && jval_plain (JObj (s_meta sc)).
